@@ -39,6 +39,11 @@ CLAIMS = {
    design_ref="7.3",
    note=BASE_NOTE + "Python == / hash for dict keys and set members of hostile streams is modelled in Value.v (numeric tower, NaN, +-0, tuples, frozensets). NEWLIST lengths above 2^20 are not executed on the implementation (open finding named in the property text).",
    technique="Coq proofs over the opcode stack machine (fuel irrelevance, error typing, extension lemma => prefix theorem) + extracted-model differential on hostile inputs"),
+ "C09": dict(
+   text="Theorems (Coq, invariant by induction over arbitrary schedules of a labelled transition system with ANY number of spawner threads, worker threads, trigger_shutdown callers and waitall callers and an optional integrated primary thread, thread and main_thread_only): in every reachable state every accepted task has been started at most once and, while not started, has exactly one holder; in every terminal state every accepted task has run exactly once and finished (no task is lost by shutdown), _running is empty, no waitall caller is blocked, and after shutdown the primary thread has left; waitall/terminate return True only if every task accepted before the call has finished; spawn after shutdown is refused and changes nothing; a 9-step witness shows the ORIGINAL code losing a task. Tie: regenerated facts (what trigger_shutdown and the primary loop do; atomicity structure of spawn/_perform_spawn/waitall) and trace inclusion: outcomes of the real WorkerPool under a deterministic scheduler (sync-point and line-level preemption, virtual clock) must be terminal outcomes of the exhaustively explored model, plus direct monitors on thousands of schedules.",
+   design_ref="7.12",
+   note=BASE_NOTE + "Assumed: each shared access between two synchronisation calls is atomic (GIL), as the step granularity of the model; Event/Lock/Queue of the execmodel behave as specified; main_thread_only pools are driven by the gateway's submission protocol. Reply.get/waitfinish result passing is checked by the harness only.",
+   technique="Coq proof: 33-clause invariant preserved by all 26 step rules, lifted to all schedules; terminal-state (deadlock-freedom style) theorems; scheduler-driven trace inclusion"),
 }
 
 REASON_TODO = "not claimed yet: model and theorems for this property are not built yet in this development (see DESIGN.md section 12 build order)"
